@@ -23,6 +23,7 @@ pub fn dispatch(op: &str, req: &Value) -> Option<R> {
         "digest_chunks" => digest_chunks(req),
         "mnemonic" => mnemonic(req),
         "aes" => aes(req),
+        "aes_mt" => aes_mt(req),
         _ => return None,
     })
 }
@@ -293,6 +294,10 @@ fn bsm_sign(req: &Value) -> R {
     };
     let mut o = sig_json(&sig);
     o["key_address_hash"] = sub(|| key.to_public_key().and_then(|p| p.to_p2pkh_address()), |a| h(&a.to_pubkey_hash()));
+    if bo(req, "skip_verify") {
+        // nothing is verified here: the caller wants the FIRST check of these signature bytes to be one of its own choosing
+        return Ok(o);
+    }
     o["verify_own_address"] = sub(|| key.to_public_key().and_then(|p| p.to_p2pkh_address()).and_then(|a| BSM::verify_message(&msg, &sig, &a)), |b| json!(b));
     // verification with the in-memory signature object (no compact trip) against the requested address
     if req.get("addr_hash").is_some() || req.get("address").is_some() {
@@ -435,6 +440,21 @@ fn digest_chunks(req: &Value) -> R {
         "sha256d" => run::<bsv::hash::sha256d_digest::Sha256d>(&chunks, rev),
         "sha256r" => run::<Sha256r>(&chunks, rev),
         "hash160" => run::<bsv::hash::hash160_digest::Hash160>(&chunks, rev),
+        // Digest-style chaining: reverse() first, then chain(data) for every chunk
+        "sha256d_chain" | "sha256r_chain" | "hash160_chain" => {
+            fn chained<D: Update + FixedOutput + ReversibleDigest + Default>(chunks: &[Vec<u8>], rev: bool) -> Vec<u8> {
+                let mut d = if rev { D::default().reverse() } else { D::default() };
+                for c in chunks {
+                    d = d.chain(c);
+                }
+                d.finalize_fixed().to_vec()
+            }
+            match st(req, "kind")? {
+                "sha256d_chain" => chained::<bsv::hash::sha256d_digest::Sha256d>(&chunks, rev),
+                "sha256r_chain" => chained::<Sha256r>(&chunks, rev),
+                _ => chained::<bsv::hash::hash160_digest::Hash160>(&chunks, rev),
+            }
+        }
         // the explicit constructor Hash160::new(reverse) instead of default() + reverse()
         "hash160_new" => {
             let mut d = bsv::hash::hash160_digest::Hash160::new(rev);
@@ -461,6 +481,71 @@ fn mnemonic(req: &Value) -> R {
     let pass = hx_opt(req, "passphrase")?;
     let x = ExtendedPrivateKey::from_mnemonic(&m, pass).map_err(lib)?;
     Ok(json!(x.to_string().map_err(lib)?))
+}
+
+/// Concurrency stress: `threads` threads encrypt (and decrypt) the given items again and again, each starting at another item, and
+/// compare every result with the expected ciphertext supplied by the caller. Returns the number of mismatches and the first one.
+fn aes_mt(req: &Value) -> R {
+    let mut items: Vec<(AESAlgorithms, Vec<u8>, Vec<u8>, Vec<u8>, Vec<u8>)> = vec![];
+    for it in arr(req, "items")? {
+        let algo = match st(it, "mode")? {
+            "128cbc" => AESAlgorithms::AES128_CBC,
+            "256cbc" => AESAlgorithms::AES256_CBC,
+            "128ctr" => AESAlgorithms::AES128_CTR,
+            "256ctr" => AESAlgorithms::AES256_CTR,
+            m => return Err(drv(format!("mode {}", m))),
+        };
+        items.push((algo, hx(it, "key")?, hx(it, "iv")?, hx(it, "msg")?, hx(it, "exp")?));
+    }
+    let threads = un_opt(req, "threads").unwrap_or(8) as usize;
+    let iters = un_opt(req, "iters").unwrap_or(2000) as usize;
+    let items = std::sync::Arc::new(items);
+    let mut hs = vec![];
+    for t in 0..threads {
+        let items = items.clone();
+        hs.push(std::thread::spawn(move || {
+            let mut bad = 0u64;
+            let mut first: Option<(usize, String)> = None;
+            let n = items.len();
+            for i in 0..iters {
+                let j = (i + t * 7) % n;
+                let (algo, k, iv, m, exp) = &items[j];
+                match AES::encrypt(k, iv, m, *algo) {
+                    Ok(ct) if &ct == exp => match AES::decrypt(k, iv, &ct, *algo) {
+                        Ok(pt) if &pt == m => {}
+                        other => {
+                            bad += 1;
+                            first.get_or_insert((j, format!("decrypt: {:?}", other.map(|v| v.len()).map_err(|e| e.to_string()))));
+                        }
+                    },
+                    other => {
+                        bad += 1;
+                        first.get_or_insert((j, format!("encrypt: {:?}", other.map(|v| hex::encode(&v[..v.len().min(16)])).map_err(|e| e.to_string()))));
+                    }
+                }
+            }
+            (bad, first)
+        }));
+    }
+    let mut total = 0u64;
+    let mut first = Value::Null;
+    for h_ in hs {
+        match h_.join() {
+            Ok((b, f)) => {
+                total += b;
+                if first.is_null() {
+                    if let Some((j, s_)) = f {
+                        first = json!({"item": j, "what": s_});
+                    }
+                }
+            }
+            Err(_) => {
+                total += 1;
+                first = json!({"what": "a worker thread panicked"});
+            }
+        }
+    }
+    Ok(json!({"mismatches": total, "first": first, "calls": threads * iters}))
 }
 
 fn aes(req: &Value) -> R {
